@@ -142,7 +142,7 @@ PROPS = {
         "traced_too": True,
         'coq': 'Properties/C12.v',
         'streams': ['loop'],
-        'level_text': 'C12_stale / C12_same_program / C12_value_from_own_slot_only / C12_too_short: a complete case split of Report::get_field; a value comes only from the slot the scope gives that name.',
+        'level_text': 'C12_stale / C12_same_program / C12_value_from_own_slot_only / C12_too_short: a complete case split of Report::get_field; a value comes only from the slot the scope gives that name. Tied to the compiler (Runtime/SlotReads.v): under the scope invariant of compiled programs (C12_compiled_scopes_satisfy_the_invariant) two different names read two different positions (C12_distinct_names_read_distinct_positions) and a full-length report has every slot (C12_full_report_has_every_slot).',
         'level_note': 'Coq kernel; no axioms; hand-written model of run_inner (src/run.rs), Datapath/Report (src/lib.rs) and Backend::next, with user callbacks and send failures as arbitrary oracles; tied to the code by running RunBuilder::run inline over a scripted Ipc with recording algorithms on the same histories (model and implementation logs compared after sorting hash-ordered DROP/INSTALL batches and renaming uids through the install messages). Assumes handles are used only inside the three callbacks.',
         'rule': 'every lookup through an own scope is repeated through a compilation made on another thread right after two failing compilations; every case\'s runtime runs on a thread of its own; structured random histories over 3 addresses x 4 flow ids: ready / create (9 algorithm names incl. prefixes, extensions, empty, 63 bytes) / measurement for live and dead flows / close / unknown, 1-4 messages per datagram (occasionally 10-14, exceeding the 1024-byte buffer), restarts, re-creates, receive errors, stop requests; 0-3 additional algorithms with duplicate names and absent instances, 6 table programs incl. a duplicate name and an uncompilable one; callbacks issue set_program/update_field/get_field lists; non-trivial = a successful lookup and at least one refusal',
         'assumptions': ["a flow's datapath handle is used only inside new_flow / on_report / close (not from Drop, not smuggled out)", 'program uids are canonicalised through the install messages; DROP and INSTALL batches are sorted before comparison (HashMap order)'],
